@@ -18,7 +18,7 @@ Src == <<"A","src">>
 MCOut == <<"A","out">>
 D7 == DirNode(755, 1)
 
-MCNameOrder == <<"", " ", "-n", ".", "..", "..n", ".git", ".terraform", ".terraformignore", "A", "a", "a+b", "aab", "ab", "b", "big", "cw", "e", "ef", "ext", "ext2",
+MCNameOrder == <<"", " ", "-n", ".", "..", "..n", ".git", ".terraform", ".terraformignore", "A", "a", "a+b", "aab", "ab", "b", "big", "c2", "cw", "e", "ef", "ext", "ext2",
                  "f", "fifo", "g", "k", "l", "la", "lb", "lc", "ld", "m", "modules", "out", "p", "q", "ra", "rl", "rl2", "s", "s.n", "src", "srcx", "t", "x", "y", "z">>
 MCNameChars == [n \in { MCNameOrder[i] : i \in DOMAIN MCNameOrder } |->
    CASE n = ".git" -> DotGit [] n = ".terraform" -> DotTerraform [] n = "modules" -> Modules
@@ -130,6 +130,8 @@ pvars == <<pfs, rules, call, res>>
 SpellTree == TreeCore(2, 755, 644) @@ (<<"A","src","l">> :> LinkNode(<<"s","g">>))
              @@ (<<"A","src","q">> :> LinkNode(<<"..","ext","x">>))
              @@ (<<"A","src","k">> :> LinkNode(<<"","A","src","f">>))          \* absolute, in-tree          \* out of tree, permitted by the relative allow-list prefix ../ext
+             \* out of the tree through a relative target that is itself a relative link (two hops): ../ext/k -> ../ext2
+             @@ (<<"A","src","c2">> :> LinkNode(<<"..","ext","k">>)) @@ (<<"A","ext","k">> :> LinkNode(<<"..","ext2">>))
              @@ (Src \o <<".terraformignore">> :> FileNode(644, 2, RuleFileC)) @@ ArenaBase
 SpellRules == << SR(FALSE, FALSE, TRUE, <<<<"s">>>>), SR(TRUE, FALSE, FALSE, <<<<"s">>, <<"g">>>>) >>
 Canon == [cwd |-> <<"A">>, sp |-> <<"", "A", "src">>]
@@ -279,10 +281,12 @@ DoSpell ==
   /\ ~call /\ Universe \in SpellUs
   \* api: a Packer value with options, or the package-level Pack(src, w, dereference) (always applies the rule
   \* file, no allow-list), which is only explored overlapping with another package-level Pack call
-  /\ \E s \in Spellings \cup CycSpellings, pre \in Pres, conc \in BOOLEAN, ig \in BOOLEAN, api \in {"packer", "legacy-deref", "legacy-plain"} :
-       /\ (Universe = "spell" /\ api # "packer" => (conc /\ ig /\ s \in LegacySpellings /\ pre \in LegacyPres))
+  /\ \E s \in Spellings \cup CycSpellings, pre \in Pres, conc \in BOOLEAN, ig \in BOOLEAN, api \in {"packer", "packer-deref", "legacy-deref", "legacy-plain"} :
+       /\ (Universe = "spell" /\ api \in {"legacy-deref", "legacy-plain"} => (conc /\ ig /\ s \in LegacySpellings /\ pre \in LegacyPres))
+       /\ (api = "packer-deref" => (Universe = "spell" /\ pre = <<>> /\ ~conc /\ ~ig))        \* dereferencing under every spelling
        /\ (Universe = "rootcyc" => (s \in CycSpellings /\ pre = <<>> /\ ~conc /\ (api # "packer" => ig)))
        /\ LET opts == IF api = "packer" THEN [ign |-> ig, deref |-> FALSE, allow |-> {}, allowrel |-> { <<"..","ext">> }]
+                   ELSE IF api = "packer-deref" THEN [ign |-> FALSE, deref |-> TRUE, allow |-> {}, allowrel |-> {}]
                       ELSE [ign |-> TRUE, deref |-> api = "legacy-deref", allow |-> {}, allowrel |-> {}]
               r == PackRun(pfs, s.cwd, s.sp, opts, Lines(rules))
               c == PackRun(pfs, Canon.cwd, Canon.sp, opts, Lines(rules))
